@@ -599,6 +599,7 @@ func c06RunG(t *testing.T, rec *vRecorder, stream string, sc c06GScenario) {
 type c06Snap struct {
 	o   c06Obs
 	hlv string
+	vec *db.HybridLogicalVector
 }
 
 func (e *c06Env) snap(side int, docID string) c06Snap {
@@ -609,6 +610,7 @@ func (e *c06Env) snap(side int, docID string) c06Snap {
 	if err == nil && doc != nil && doc.HLV != nil {
 		b, _ := json.Marshal([]any{doc.HLV.SourceID, doc.HLV.Version, doc.HLV.MergeVersions, doc.HLV.PreviousVersions})
 		h = string(b)
+		return c06Snap{o: o, hlv: h, vec: doc.HLV.Copy()}
 	}
 	return c06Snap{o: o, hlv: h}
 }
@@ -732,10 +734,16 @@ func c06RunRedeliver(t *testing.T, rec *vRecorder, rng *vRand, v4 bool, idx int)
 				if !before.o.Deleted && after.o.Deleted {
 					sig = proto + "redelivery-deleted-document"
 				}
-				if m.deleted && before.o.Deleted && after.o.Deleted && before.o.CV == after.o.CV && before.o.Body == after.o.Body {
-					// a tombstone delivered to a tombstoned document skips the "already present" test: the same
-					// version is written again (a new sequence; the vector may gain history; the sender's tombstone
-					// revision is added to the tree when the two sides hold different tombstone revisions)
+				// ROOT CAUSE of the recorded finding, and nothing broader: PutExistingCurrentVersion, incoming tombstone onto a
+				// stored tombstone (allowConflictingTombstone) skips IsInConflict, hence the "already present" answer, and
+				// runs doc.HLV.UpdateWithIncomingHLV(incoming) although the stored vector ALREADY KNOWS the incoming current
+				// version.  Effect: the document is written again with the INCOMING current version -- the same one when the
+				// stored tombstone carried it (new sequence, the vector may gain history, the sender's tombstone revision
+				// is added to the tree), an OLDER one when the stored tombstone is newer (a merge / a later delete): the
+				// stored current version is then replaced by a version it had already superseded.
+				if v4 && m.deleted && m.hlv != nil && before.o.Deleted && after.o.Deleted && before.vec != nil &&
+					before.vec.DominatesSource(db.Version{SourceID: m.hlv.SourceID, Value: m.hlv.Version}) &&
+					after.o.Src == m.hlv.SourceID && after.o.Ver == m.hlv.Version && before.o.Body == after.o.Body {
 					sig = proto + "redelivered-tombstone-rewritten"
 				}
 				rec.Fail("redelivery_noop", sig, map[string]any{"protocol": c06Proto(v4), "scenario": fmt.Sprintf("redeliver-%d", idx), "resolver": rs.String(), "steps": append([]string{}, descs...),
